@@ -26,6 +26,9 @@ LISTS = {
     'E5': f'u8, {A}<u8,4>',
     'G1': f'Cm, {F}<Cm>',
     'G2': f'usize, {V}<Cm>',
+    'FL1': 'u32, float',                       # floating point: == is not bitwise (+0.0 == -0.0)
+    'FL2': f'{F}<double>, u64',
+    'R1': f'u32, {F}<u32>',                     # one trivially swappable/assignable run of 4 + 4n bytes, n up to 15 (C11)
 }
 TWO_SPAN = {'F2', 'V3', 'M1'}
 TRIVIAL = ['P1', 'P2', 'F1', 'F2', 'V1', 'V2', 'V3', 'M1']
@@ -118,7 +121,9 @@ def attribute(ob, viol):
     if k == 'PROP':
         f = ATTR.get(ob['harness'])
         p = f(viol['assert_id']) if f else ob.get('prop')
-        return {p}
+        out = {p}
+        if p in ob.get('also', {}): out.add(ob['also'][p])
+        return out
     out = {KIND_PROP.get(k, ob.get('prop'))}
     if k == 'LEDGER' and 'unequal allocator' in viol['msg']: out.add('C08')
     if k in UB_KINDS:
@@ -268,6 +273,16 @@ def pool_layout(prop, tier, seed, reserved=False):
                 for (kc, sc, ac) in [('P', 4, 8), ('P', 4, 16), ('F', 2, 8), ('P', 2, 4)]:
                     shapes.append((((ka, sa, aa), ('P', sb, ab), (kc, sc, ac)), 'usize'))
     random.Random(3).shuffle(shapes)
+    # tail shapes: [plain that ends on a storage-aligned offset][span of small objects as the LAST parameter] - the stride /
+    # trailing padding of the element is decided by the end of the span
+    tails = []
+    for (sp, ap) in [(4, 8), (4, 16), (16, 8), (2, 4)]:
+        for ks in 'FV':
+            for (ss, as_) in [(2, 1), (1, 1), (4, 2), (12, 1)]:
+                tails.append(((('P', sp, ap), (ks, ss, as_)), 'usize'))
+    random.Random(4).shuffle(tails)
+    for combo, cnt in (tails[:8] if tier == 'quick' else tails):
+        obs.append(layout_ob(prop, family_name(combo, cnt), family_list(combo, cnt), nelem=(3 if combo[1][0] == 'F' else 2), reserved=int(reserved)))
     for combo, cnt in (shapes[:14] if tier == 'quick' else shapes):
         obs.append(layout_ob(prop, family_name(combo, cnt), family_list(combo, cnt), nelem=2, reserved=int(reserved)))
     fam = family()
@@ -379,8 +394,9 @@ def c10(tier, seed):
 
 def c16(tier, seed):
     obs = pool_seq('C16', CORE if tier == 'thorough' else ['P2', 'F1', 'V1', 'V3', 'M1', 'N1', 'N2'], tier)
-    obs += pool_copy('C16', ['F1', 'V1', 'N2'] if tier == 'quick' else CORE, tier, akinds=('ae', 'prop-ne'), ops=['OP_SWAP', 'OP_MOVE_CTOR', 'OP_MOVE_ASSIGN', 'OP_SELF'])
-    return obs
+    cp = pool_copy('C16', ['F1', 'V1', 'N2'] if tier == 'quick' else CORE, tier, akinds=('ae', 'prop-ne'), ops=['OP_SWAP', 'OP_MOVE_CTOR', 'OP_MOVE_ASSIGN', 'OP_SELF'])
+    for o in cp: o['also'] = {'C09': 'C16'}     # "exchange ownership": the contents after swap / move are part of C16's claim
+    return obs + cp
 
 
 REF_LISTS = ['N3', 'P2', 'F2', 'M1', 'N1', 'N2', 'V1', 'F1']
@@ -397,6 +413,11 @@ def c11(tier, seed):
     for lid in (REF_LISTS if tier == 'thorough' else ['N3', 'P2', 'F2', 'M1', 'N2']):
         for part in (1, 2, 3, 4):
             obs.append(ref_ob('C11', lid, part, k0=(3 if tier == 'thorough' or part in (3, 4) else 2)))
+    # long trivially assignable / swappable runs (4 + 4n bytes, n = 0..15: includes 32 and 64 bytes)
+    for part in (2, 4):
+        o = ref_ob('C11', 'R1', part, k0=2)
+        o['defines'].append('-DSMAX=15'); o['name'] += '/s15'
+        obs.append(o)
     return obs
 
 
@@ -433,7 +454,7 @@ ATTR['h_cmp.cpp'] = attribute_cmp
 
 
 def c13(tier, seed):
-    lists = ['E1', 'E2', 'E3', 'E4', 'G1', 'G2', 'P2', 'V1'] + ([] if tier == 'quick' else ['E5', 'F2', 'M1', 'N1'])
+    lists = ['E1', 'E2', 'E3', 'E4', 'G1', 'G2', 'P2', 'V1', 'FL1', 'FL2'] + ([] if tier == 'quick' else ['E5', 'F2', 'M1', 'N1'])
     obs = []
     for lid in lists:
         obs.append(cmp_ob('C13', lid, 1, smax=(1 if lid in TWO_SPAN else None)))
